@@ -83,3 +83,12 @@ class Add(Conclusion[T]):
         v = next(iter(self.value._evaluate__(sources)))[self.value._id_]
         sources[self.var._var_._id_] = v
         return sources
+
+    def _evaluate_all_(self, sources: Dict[int, HashedValue]) -> typing.Iterable[Dict[int, HashedValue]]:
+        """
+        One row for every value of the concluded expression under the given bindings: the expression can mention a variable
+        that the conditions of its branch left unbound (it is concluded for every value of that variable), or it can have
+        no value at all under them.
+        """
+        for value in self.value._evaluate__(dict(sources)):
+            yield {**value, **sources, self.var._var_._id_: value[self.value._id_]}
